@@ -156,7 +156,9 @@ def check(ctx):
                        'without moving the payload or deleting the info: stray .trashinfo')
         for m in moves:
             exc = exc_successors(b, m.id)
-            leak2 = [t for t in bad_targets if exc and feasible_path(b, exc, t, rel_ids)]
+            others = set(x.id for x in moves if x.id != m.id)   # fallback moves
+            leak2 = [t for t in bad_targets
+                     if exc and feasible_path(b, exc, t, rel_ids | others)]
             ctx.ob('R01.3', 'a failed MOVE always leads to DELETE(INFO)',
                    bool(exc) and not leak2, node=m,
                    message='when the move fails the .trashinfo is not removed on every '
